@@ -9,7 +9,7 @@ import numpy as np
 
 from . import samplercase
 from .. import drive, env, workloads
-from ..instrument import Hooks, VirtualClock, result_digest
+from ..instrument import Hooks, VirtualClock, result_digest, sampling_state_digest
 
 ID = 'C11'
 LEVEL = 'exploration'
@@ -17,14 +17,18 @@ DECIDING = 'pairs_compared'
 CHUNK = {'quick': 1, 'thorough': 1}
 TIMEOUT = 2400
 FAMILIES = ['gauss', 'mixture', 'funnel', 'periodic', 'plateau', 'corr', 'ring', 'islands']
-VARIANTS = ['again', 'vectorised', 'pool1', 'pool2', 'pool3', 'pool4', 'verbose', 'file', 'observed', 'sampler_pool_again']
+VARIANTS = ['again', 'vectorised', 'pool1', 'pool2', 'pool3', 'pool4', 'verbose', 'file', 'observed', 'sampler_pool_again',
+            'sampler_pool_file']
 RULE = ('case = one seeded configuration; the base run (scalar likelihood, serial, no file, silent, unobserved) is '
         'compared by SHA-256 of posterior()/log_z/n_eff/n_like with variants: same again; vectorised likelihood; '
         'likelihood pool of 1, 2, 3 and 4 workers at the same n_batch (also when n_batch is not a multiple of the pool size), the workers sleeping a point-dependent time so that '
         'completion order differs from submission order (completion stamps logged to a side file); verbose=True; with a '
         'checkpoint file; observed = after every batch a seeded random subset of the read-only accessors (log_z, n_eff, '
         'eta, f_live, log_v_live, posterior(), evidence(), effective_sample_size(), asymptotic_sampling_efficiency(), '
-        'shell_bound_occupation(), shell_association()) is called; and a sampler-pool run repeated. Non-trivial = '
+        'shell_bound_occupation(), shell_association()) is called; a sampler-pool run repeated; and a sampler-pool run '
+        'with a checkpoint file. In every run that writes a file a hook monitor digests generator states, proposal caches, '
+        'draw counters and stored arrays before and after each write()/write_shell_update(): writing must not change them. '
+        'Non-trivial = '
         'distinct (configuration, variant) pairs compared; pool variants count only if >= 1 batch completed out of '
         'submission order.')
 ASSUMPTIONS = ['single-threaded BLAS/OpenMP (threads pinned to 1), PYTHONHASHSEED fixed',
@@ -50,6 +54,8 @@ def gen_cases(tier, seed):
         elif tier == 'quick':
             variants = [['pool2', 'pool3', 'pool4'][i % 3], ['observed', 'vectorised', 'file', 'again', 'verbose',
                                                       'sampler_pool_again', 'pool1'][i % 7]]
+            if 'sampler_pool_again' in variants or i % 7 == 2:
+                variants.append('sampler_pool_file')
         else:
             variants = list(VARIANTS)
         cases.append({'i': i, 'seed': seed, 'prob': pspec, 'cfg': cfg, 'variants': sorted(set(variants))})
@@ -70,6 +76,27 @@ class Observer:
     def on_after_add_bound(self, s, result):
         drive.call_accessor(s, 'shell_bound_occupation', self.rng)
         self.calls += 1
+
+
+class WriteIsReadOnly:
+    """Invariant at the checkpoint hooks: writing a checkpoint leaves everything that determines the future of the run
+    (generator states, proposal caches, draw counters, stored arrays) exactly as it was. A write that changes any of it
+    makes the run with a file differ from the run without one as soon as the changed state is used."""
+
+    def __init__(self):
+        self.before, self.writes, self.changed, self.cache_rows_max = None, 0, [], 0
+
+    def on_before_write(self, s, kind):
+        self.before = sampling_state_digest(s)
+        for b in s.bounds:
+            if isinstance(getattr(b, 'points', None), np.ndarray):
+                self.cache_rows_max = max(self.cache_rows_max, len(b.points))
+
+    def on_after_write(self, s, kind, filepath):
+        self.writes += 1
+        if self.before is not None and sampling_state_digest(s) != self.before and len(self.changed) < 3:
+            self.changed.append(dict(kind=kind, n_like=int(s.n_like), n_bounds=len(s.bounds)))
+        self.before = None
 
 
 class Submissions:
@@ -100,6 +127,12 @@ def _one_run(spec, variant, scratch, budget=None):
         path = os.path.join(scratch, 'c11.hdf5')
     elif variant.startswith('sampler_pool'):
         cfg['pool'] = 's2'
+        if variant == 'sampler_pool_file':
+            path = os.path.join(scratch, 'c11-sp.hdf5')
+    wro = None
+    if path is not None:
+        wro = WriteIsReadOnly()
+        monitors.append(wro)
     prob = workloads.Problem(pspec)
     if variant == 'observed':
         ob = Observer(spec['cfg']['seed'] + 5)
@@ -127,6 +160,8 @@ def _one_run(spec, variant, scratch, budget=None):
         info.update(ok=bool(ok), n_like=int(s.n_like), n_bounds=len(s.bounds))
         if variant == 'observed':
             info['accessor_calls'] = ob.calls
+        if wro is not None:
+            info.update(writes_watched=wro.writes, writes_changed_state=wro.changed, cache_rows_max=wro.cache_rows_max)
         if 'sidelog' in pspec and os.path.exists(pspec['sidelog']):
             rank = {}
             pids = set()
@@ -148,7 +183,7 @@ def _one_run(spec, variant, scratch, budget=None):
 
 def run_case(spec):
     obs = dict(pairs_compared=0, runs=0, permuted_batches=0, pool_batches=0, accessor_calls=0, worker_pids_max=0,
-               vectorised_pairs=0)
+               vectorised_pairs=0, checkpoint_writes_watched=0, write_cache_rows_max=0)
     viols = []
     rng = env.case_rng(ID, 10_000 + spec['i'], spec['seed'])
     modes_ok = workloads.verify_modes(spec['prob'], rng)
@@ -163,14 +198,16 @@ def run_case(spec):
         except np.linalg.LinAlgError as e:
             return {'status': 'skipped', 'reason': repr(e), 'obs': obs}
         obs['runs'] += 1
+        sp_ref = None
         for v in spec['variants']:
             if v == 'vectorised' and not modes_ok:
                 continue
             ref, ref_name = base, 'base'
-            if v == 'sampler_pool_again':
-                ref, _ = _one_run(spec, 'sampler_pool', scratch, budget=budget)
-                ref_name = 'sampler_pool'
-                obs['runs'] += 1
+            if v in ('sampler_pool_again', 'sampler_pool_file'):
+                if sp_ref is None:
+                    sp_ref, _ = _one_run(spec, 'sampler_pool', scratch, budget=budget)
+                    obs['runs'] += 1
+                ref, ref_name = sp_ref, 'sampler_pool'
             try:
                 dig, info = _one_run(spec, v, scratch, budget=budget)
             except Exception as e:
@@ -195,6 +232,14 @@ def run_case(spec):
                 obs['accessor_calls'] += info.get('accessor_calls', 0)
             if v == 'vectorised':
                 obs['vectorised_pairs'] += 1
+            if 'writes_watched' in info:
+                obs['checkpoint_writes_watched'] += info['writes_watched']
+                obs['write_cache_rows_max'] = max(obs['write_cache_rows_max'], info['cache_rows_max'])
+                if info['writes_changed_state']:
+                    viols.append(dict(key='determinism.checkpoint-write-changes-sampling-state',
+                                      what='variant %s: writing the checkpoint changed generator state, proposal caches, '
+                                      'counters or stored arrays of the sampler in memory (first at %r)'
+                                      % (v, info['writes_changed_state'][0]), case=samplercase.case_key(spec)))
             n_nontrivial += int(counted)
             compared.append(v)
             if dig != ref:
